@@ -51,13 +51,23 @@ func (r *recorder) add(e hev) {
 
 // do runs one Put/Delete/Get of client c on key (rank) k, recording call and return.
 func (r *recorder) do(e *h.Eng, c int, op string, k int, vid int) {
-	key := e.U.Key(k)
+	// every call passes its key (and value) in a buffer of its own that the caller overwrites after the return
+	key := append([]byte(nil), e.U.Key(k)...)
+	defer func() {
+		for i := range key {
+			key[i] = 0xEE
+		}
+	}()
 	r.add(hev{key: k, call: true, c: c, op: op, v: vid})
 	res := 0
 	var err error
 	switch op {
 	case "Put":
-		err = e.DB.Put(key, e.V.Bytes(vid))
+		val := e.V.Bytes(vid)
+		err = e.DB.Put(key, val)
+		for i := range val {
+			val[i] = 0xEE
+		}
 	case "Delete":
 		err = e.DB.Delete(key)
 	case "Get":
